@@ -111,7 +111,8 @@ func (t *Array) genFunc_IndexOf(m *Module) string {
 	}
 
 	f.Insts = append(f.Insts, block_pre)
-	f.Insts = append(f.Insts, ret.EmitPush()...)
+	// the count held by the local `ret` is handed to the caller with the result (no epilogue releases it)
+	f.Insts = append(f.Insts, ret.EmitPushNoRetain()...)
 	m.AddFunc(&f)
 	return fn_name
 }
